@@ -39,7 +39,7 @@ def sub_summary(evn):
     return {'ok': True, 'id': ret['id'], 'leaves': out_leaves}
 
 
-def cases_from_result(r, wf_by_file, inputs, main='workflow.yaml', sub_inputs=None, expect_items=None):
+def cases_from_result(r, wf_by_file, inputs, main='workflow.yaml', sub_inputs=None, expect_items=None, pure=False):
     """turn one scenario result into TLC cases (one per engine run found in the trace); sub-runs of foreach steps are
     cases of their own (with the sub-workflow's abstract record) and are summarised in the parent's `subs` table"""
     evs = read_trace(r['trace'])
@@ -105,8 +105,23 @@ def cases_from_result(r, wf_by_file, inputs, main='workflow.yaml', sub_inputs=No
         evn = normed[ru['run']]
         cases.append({'wf': strip_wf(wf_by_file[f]), 'input': inleaves, 'noreturn': False, 'subs': stab,
                       'expectItems': (expect_items or {}) if ru['parent'] is None else {},
+                      'declPar': declared_parallelism(wf_by_file[f]), 'pure': bool(pure) and ru['parent'] is None,
                       'events': evn, '_run': ru['run'], '_returned': any(e['ev'] == 'Return' for e in evn), '_file': f})
     return cases
+
+
+def declared_parallelism(wf):
+    """foreach step -> the parallelism its text declares (documented default 1); loops whose bound is an expression are left out"""
+    out = {}
+    for sid, d in wf['steps'].items():
+        if d['kind'] != 'foreach':
+            continue
+        t = d['fields'].get('parallelism')
+        if t is None:
+            out[sid] = 1
+        elif t.get('t') == 'lit' and isinstance(t.get('value'), int):
+            out[sid] = t['value']
+    return out
 
 
 def strip_case(c):
@@ -178,7 +193,7 @@ def run_family(binary, work, items, jobs=None, batch=6, meaning_needed=True, log
             findings.append(Finding(prop='C05', rule='goroutine-left-after-return', detail=leak_site(lk), item=i, where=r['dir']))
         wfs = {'workflow.yaml': it['wf']}
         wfs.update(it.get('subwfs', {}))
-        cs = cases_from_result(r, wfs, it.get('inputs') or [it['input']], expect_items=it.get('expect_items'))
+        cs = cases_from_result(r, wfs, it.get('inputs') or [it['input']], expect_items=it.get('expect_items'), pure=it.get('pure', False))
         for c in cs:
             if res.get('watchdog'):
                 c['noreturn'] = True
